@@ -212,6 +212,21 @@ def expand(job):
             desc["a"] = _hms(desc["a"])
             if recur.float_class(desc):
                 continue
+        if x < 0.45 and rnd.random() < 0.35 and desc["a"]["y"] > -9000 and desc["a"]["y"] < 9000 and not desc["a"].get("dec"):
+            # a whole-day shift that lands the anchor EXACTLY on the last / first day of a year or on 29 February / 1 March, one or
+            # more years away (the carry through whole years must count each year's own length)
+            from harness import refcal as R
+            a_ = desc["a"]
+            n0 = R.daynum(m, a_["y"], a_["a"], a_["b"]) if a_["rep"] == "cal" else R.year_start(m, a_["y"]) + a_["b"] - 1 if a_["rep"] == "ord" else None
+            if n0 is not None:
+                ty = a_["y"] + rnd.choice([1, 1, 2, 3, 4, 5, -1, -2, -4, 8])
+                ty += (-ty) % 4 if rnd.random() < 0.7 else 0
+                tgt = rnd.choice([R.year_start(m, ty + 1) - 1, R.year_start(m, ty + 1) - 1, R.year_start(m, ty + 1) - 1, R.year_start(m, ty), R.daynum(m, ty, 3, 1) - 1, R.daynum(m, ty, 3, 1)])
+                if tgt != n0:
+                    how = rnd.choice(["add", "radd", "sub"])
+                    dd = tgt - n0 if how != "sub" else n0 - tgt
+                    yield {"mode": sp, "rec": desc, "kind": "shift", "d": {"d": dd} if rnd.random() < 0.6 else {"d": dd - (1 if dd > 0 else -1), "h": 24 if dd > 0 else -24}, "how": how}
+                    continue
         if x < 0.45:
             d = dict(rnd.choice(SHIFTS))
             if rnd.random() < 0.4:
@@ -234,7 +249,7 @@ def expand(job):
             # (exact intervals only: month/year steps from the UTC spelling of the anchor are other dates than from the local one)
             if recur.parseable(desc) and desc["fmt"] != 1 and recur.is_exact(desc["d"]) and not desc["a"].get("dec") \
                     and 2 <= desc["a"]["y"] <= 9997 and rnd.random() < 0.3:       # (away from the years a "...Z" format cannot print)
-                case_["zfmt"] = rnd.choice([1, 2])
+                case_["zfmt"] = rnd.choice([1, 2, 3, 4, 5, 6])
                 z_ = rnd.choice([(0, -30), (0, 45), (-3, -30), (5, 30), (0, 0), (1, 0)])
                 case_["rec"] = dict(desc, a=dict(desc["a"], zh=z_[0], zm=z_[1]))
             yield case_
